@@ -253,28 +253,119 @@ impl Model {
                 )
             }
 
-            // Introspection with the broker's default feature set (stub handlers).
-            Message::RegisterIntrospection(_) => {
+            // Introspection (broker built with its `introspection` feature).
+            Message::RegisterIntrospection(req) => {
                 if v < ProtocolVersion::V1_17 {
                     self.probe("gate-closed");
+                    return false;
                 }
-                v >= ProtocolVersion::V1_17
+                match req.value.deserialize::<std::collections::HashSet<aldrin_core::TypeId>>() {
+                    Ok(ids) => {
+                        for id in ids {
+                            self.intro.entry(id).or_default().conns.insert(c);
+                        }
+                        self.probe("introspection-registered");
+                        true
+                    }
+                    Err(_) => false,
+                }
             }
             Message::QueryIntrospection(req) => {
                 if v < ProtocolVersion::V1_17 {
                     self.probe("gate-closed");
                     return false;
                 }
-                self.send(
-                    c,
-                    QueryIntrospectionReply {
-                        serial: req.serial,
-                        result: QueryIntrospectionResult::Unavailable,
-                    },
-                    None,
-                )
+                let Some(entry) = self.intro.get_mut(&req.type_id) else {
+                    return self.send(
+                        c,
+                        QueryIntrospectionReply {
+                            serial: req.serial,
+                            result: QueryIntrospectionResult::Unavailable,
+                        },
+                        None,
+                    );
+                };
+                if let Some(cached) = entry.cached.clone() {
+                    self.probe("introspection-answered-from-cache");
+                    return self.send(
+                        c,
+                        QueryIntrospectionReply {
+                            serial: req.serial,
+                            result: QueryIntrospectionResult::Ok(cached),
+                        },
+                        None,
+                    );
+                }
+                entry.pending.push((c, req.serial));
+                if entry.queried.is_none() {
+                    self.intro_query(req.type_id, snap);
+                } else {
+                    self.probe("introspection-query-joined");
+                }
+                true
             }
-            Message::QueryIntrospectionReply(_) => false,
+            Message::QueryIntrospectionReply(req) => {
+                if v < ProtocolVersion::V1_17 {
+                    self.probe("gate-closed");
+                    return false;
+                }
+                let Some(&type_id) = self.intro_queries.get(&req.serial) else {
+                    self.probe("introspection-reply-unknown-serial");
+                    return false;
+                };
+                let entry = self.intro.get_mut(&type_id).expect("model intro entry");
+                match entry.queried {
+                    Some((q, _)) if q == c => {}
+                    _ => {
+                        self.probe("introspection-reply-from-wrong-connection");
+                        return false;
+                    }
+                }
+                entry.queried = None;
+                self.intro_queries.remove(&req.serial);
+                match req.result {
+                    QueryIntrospectionResult::Ok(value) => {
+                        let pending = std::mem::take(&mut entry.pending);
+                        entry.cached = Some(value.clone());
+                        self.probe("introspection-available");
+                        for (p, serial) in pending {
+                            self.send(
+                                p,
+                                QueryIntrospectionReply {
+                                    serial,
+                                    result: QueryIntrospectionResult::Ok(value.clone()),
+                                },
+                                None,
+                            );
+                        }
+                    }
+                    QueryIntrospectionResult::Unavailable => {
+                        entry.conns.remove(&c);
+                        // The broker forgets everything about `c` for this type, including a query
+                        // `c` itself may have pending for it (left open by the properties; mirrored).
+                        entry.pending.retain(|(p, _)| *p != c);
+                        if entry.conns.is_empty() {
+                            let pending = std::mem::take(&mut entry.pending);
+                            self.intro.remove(&type_id);
+                            self.probe("introspection-unavailable");
+                            for (p, serial) in pending {
+                                self.send(
+                                    p,
+                                    QueryIntrospectionReply {
+                                        serial,
+                                        result: QueryIntrospectionResult::Unavailable,
+                                    },
+                                    None,
+                                );
+                            }
+                        } else {
+                            self.probe("introspection-query-continued");
+                            self.intro_query(type_id, snap);
+                        }
+                    }
+                }
+                true
+            }
 
             // Kinds only the broker may send, and handshake messages.
             Message::Connect(_)
